@@ -1028,6 +1028,30 @@ func vfC10Session(t *testing.T, res *vfResult, idx int, si vfSuiteInfo) {
 		p.C.StartPump()
 		p.S.StartPump()
 		written := map[string][][]byte{}
+		if idx >= 100000 && cfg.Is13() {
+			// a long-lived connection: more than 2^16 records in one epoch (the wire carries 16 bits of the record
+			// number, the nonce uses all of it)
+			for k := 0; k < 65536+40; k++ {
+				msg := []byte(fmt.Sprintf("c10-long-%d", k))
+				if _, err := p.C.Conn.Write(msg); err == nil {
+					written["c"] = append(written["c"], msg)
+				}
+				if k%512 == 511 {
+					synctest.Wait()
+				}
+			}
+			res.Count("long_epoch_sessions", 1)
+			time.Sleep(2 * time.Second)
+			synctest.Wait()
+			if got := len(p.S.ReadsSnapshot()); got < len(written["c"]) {
+				vfC10Bad(res, fmt.Sprintf("%s: %d payloads written in one epoch, the library's own peer delivered %d: records beyond 2^16 are not sealed the way they are opened (RFC 9147 nonce = write_iv XOR the full 64-bit record number)", cfg.Suite.Name, len(written["c"]), got),
+					"long-epoch-delivery:"+cfg.Suite.Name, nil)
+				p.Close()
+				synctest.Wait()
+
+				return
+			}
+		}
 		for k := 0; k < 4; k++ {
 			for _, side := range []*vfSide{p.C, p.S} {
 				msg := append([]byte(fmt.Sprintf("c10-%d-%d-%s-%d-", idx, round, side.Name, k)), vfRandBytes(r, []int{16, 1, 300, 1000}[k])...)
@@ -1090,6 +1114,9 @@ func TestVF_C10(t *testing.T) {
 	suites := vfAllSuites()
 	per := vfPick(6, 90)
 	vfBubbles(t, per*len(suites), func(t *testing.T, i int) { vfC10Session(t, res, i, suites[i%len(suites)]) })
+	vfBubbles(t, vfPick(1, 3), func(t *testing.T, i int) {
+		vfC10Session(t, res, 100000+3*i, vfSuiteByName([]string{"13-GCM128", "13-CHACHA", "13-GCM256"}[i]))
+	})
 	for _, s := range suites {
 		if res.Get("sessions/"+s.Name) == 0 {
 			res.Inconc("no session decoded for suite " + s.Name)
